@@ -106,8 +106,7 @@ Lemma gen_unflatten_body : forall (A : Type) (b : list A) (i size : nat), (i < l
   | _ => []
   end.
 Proof.
-  intros A b i size Hi. unfold g_unflatten_body, slice. rewrite Z.gtb_ltb.
-  destruct (Z.ltb_spec (Z.of_nat (length b)) (Z.of_nat (i + size))).
+  intros A b i size Hi. unfold g_unflatten_body, slice. gen_split.
   - rewrite firstn_all2 by (rewrite skipn_length; lia). symmetry. apply firstn_all2. rewrite skipn_length. lia.
   - f_equal. lia.
 Qed.
